@@ -510,6 +510,8 @@ def oracle(case, impl, run):
             exp = [[[c.strip(), h] for c, h in zip(r, hr)] for r, hr in zip(entry['rows'], entry['hl'])]
             got = [[[c[0].strip(), c[1]] for c in r] for r in doc['body']]
             safe = all(c.strip() and '\n' not in c for r in entry['rows'] for c in r)
+            if not exp and got and len(got) == 1 and all(c == ['', False] for c in got[0]):
+                got = []        # a table without rows is written with one blank body line (reST cannot express an empty body)
             if safe and got != exp:
                 bad = next((i for i, (a, b) in enumerate(zip(got, exp)) if a != b), min(len(got), len(exp)))
                 fails.append(('readback', f"verbosity {entry['verb']}: row {bad} of the written table reads back as "
